@@ -82,13 +82,16 @@ func (wp *workerPool) Stop() {
 	// Do not wait for busy workers - they will stop after
 	// serving the connection and noticing wp.mustStop = true.
 	wp.lock.Lock()
+	vhook("wp.stop.begin", wp, nil, len(wp.ready), 0)
 	ready := wp.ready
 	for i := range ready {
+		vhook("wp.stop.nil", wp, ready[i], 0, 0)
 		ready[i].ch <- nil
 		ready[i] = nil
 	}
 	wp.ready = ready[:0]
 	wp.mustStop = true
+	vhook("wp.stop", wp, nil, 0, 0)
 	wp.lock.Unlock()
 }
 
@@ -127,6 +130,7 @@ func (wp *workerPool) clean(scratch *[]*workerChan) {
 	}
 
 	*scratch = append((*scratch)[:0], ready[:i+1]...)
+	vhook("wp.clean.sel", wp, nil, i+1, n)
 	m := copy(ready, ready[i+1:])
 	for i = m; i < n; i++ {
 		ready[i] = nil
@@ -140,6 +144,7 @@ func (wp *workerPool) clean(scratch *[]*workerChan) {
 	// are located on non-local CPUs.
 	tmp := *scratch
 	for i := range tmp {
+		vhook("wp.clean.nil", wp, tmp[i], 0, 0)
 		tmp[i].ch <- nil
 		tmp[i] = nil
 	}
@@ -150,6 +155,7 @@ func (wp *workerPool) Serve(c net.Conn) bool {
 	if ch == nil {
 		return false
 	}
+	vhook("wp.send", ch, c, 0, 0)
 	ch.ch <- c
 	return true
 }
@@ -179,11 +185,15 @@ func (wp *workerPool) getCh() *workerChan {
 		if wp.workersCount < wp.MaxWorkersCount {
 			createWorker = true
 			wp.workersCount++
+			vhook("wp.get.create", wp, nil, wp.workersCount, 0)
+		} else {
+			vhook("wp.get.fail", wp, nil, wp.workersCount, 0)
 		}
 	} else {
 		ch = ready[n]
 		ready[n] = nil
 		wp.ready = ready[:n]
+		vhook("wp.get.reuse", wp, ch, n, 0)
 	}
 	wp.lock.Unlock()
 
@@ -193,6 +203,7 @@ func (wp *workerPool) getCh() *workerChan {
 		}
 		vch := wp.workerChanPool.Get()
 		ch = vch.(*workerChan) //nolint:forcetypeassert
+		vhook("wp.spawn", wp, ch, 0, 0)
 		go func() {
 			wp.workerFunc(ch)
 			wp.workerChanPool.Put(vch)
@@ -203,12 +214,15 @@ func (wp *workerPool) getCh() *workerChan {
 
 func (wp *workerPool) release(ch *workerChan) bool {
 	ch.lastUseTime = time.Now()
+	vhook("wp.stamp", wp, ch, 0, 0)
 	wp.lock.Lock()
 	if wp.mustStop {
+		vhook("wp.release", wp, ch, 0, len(wp.ready))
 		wp.lock.Unlock()
 		return false
 	}
 	wp.ready = append(wp.ready, ch)
+	vhook("wp.release", wp, ch, 1, len(wp.ready))
 	wp.lock.Unlock()
 	return true
 }
@@ -218,6 +232,7 @@ func (wp *workerPool) workerFunc(ch *workerChan) {
 
 	var err error
 	for c = range ch.ch {
+		vhook("wp.recv", ch, c, 0, 0)
 		if c == nil {
 			break
 		}
@@ -236,9 +251,11 @@ func (wp *workerPool) workerFunc(ch *workerChan) {
 		}
 		if err == errHijacked {
 			wp.connState(c, StateHijacked)
+			vhook("wp.done", ch, c, 1, 0)
 		} else {
 			_ = c.Close()
 			wp.connState(c, StateClosed)
+			vhook("wp.done", ch, c, 0, 0)
 		}
 
 		if !wp.release(ch) {
@@ -248,5 +265,6 @@ func (wp *workerPool) workerFunc(ch *workerChan) {
 
 	wp.lock.Lock()
 	wp.workersCount--
+	vhook("wp.exit", wp, ch, wp.workersCount, 0)
 	wp.lock.Unlock()
 }
